@@ -12,7 +12,7 @@ Definition dec_call (v : list int) : option lcall :=
            else if N.eqb n 9 then Some LPing else if N.eqb n 10 then Some LJoin else if N.eqb n 11 then Some LAdvance
            else if N.eqb n 12 then Some LReap else if N.eqb n 20 then Some LShutdown else if N.eqb n 21 then Some LLeave
            else if N.eqb n 22 then Some LUpdateNode else if N.eqb n 23 then Some LLeave else if N.eqb n 24 then Some LShutdown else if N.eqb n 25 then Some LUpdateNode else if N.eqb n 26 then Some LLeave
-           else if N.eqb n 27 then Some LLeave (* a timeout long enough for the departure to go out *) else if N.eqb n 28 then Some LLeave (* no timeout *) else None
+           else if N.eqb n 27 then Some LLeave (* a timeout long enough for the departure to go out *) else if N.eqb n 28 then Some LLeave (* no timeout *) else if N.eqb n 29 then Some LLeave (* while UpdateNode waits *) else None
   | _ => None
   end.
 Fixpoint dec_list {A B} (f : A -> option B) (l : list A) : option (list B) :=
